@@ -70,28 +70,46 @@ def body(chk, db, cfgname):
         rk = value_key(g, gctx, env_at(g, gctx), g.nodes[rets[0]]["sub"], rets[0])
         if kind == "z":
             T = F.name_atom(("op", "()", terms, ("param", g.params[0]["d"], g.params[0]["n"])), "Terms_z")
-            # Terms(z) + (|z| < 1e-15 ? Z0*beta : 0)
-            ok_ = False
-            why = "value is not Terms(z) + [|z|<eps] * ZeroPoleWeight * beta"
-            if rk[0] == "op" and rk[1] == "+":
-                parts = [rk[2], rk[3]]
-                conds = [p for p in parts if p[0] == "cond"]
-                rest = [p for p in parts if p[0] != "cond"]
-                if len(conds) == 1 and len(rest) == 1 and F.equal(F.conv(rest[0]), T):
-                    c = conds[0]
-                    cnd = c[1]
-                    small_z = cnd[0] == "op" and cnd[1] == "<" and cnd[2][0] == "call" and cnd[2][1] in ("abs", "std::abs") and cnd[2][2] == ("param", g.params[0]["d"], g.params[0]["n"]) and \
-                        cnd[3][0] == "lit" and 0 < float(cnd[3][1]) <= 1e-10
-                    if small_z and F.equal(F.conv(c[2]), Zw * beta) and F.equal(F.conv(c[3]), 0):
-                        ok_ = True
+            # Terms(z) + [|z| < eps] Z0*beta, decided case by case (any form: ?:, if, accumulator)
+            from pv.paths import return_cases
+            zp = ("param", g.params[0]["d"], g.params[0]["n"])
+            cases_ = return_cases(g, gctx)
+            if not cases_:
+                raise AnalysisBroken("%s: the returning paths cannot be enumerated" % site)
+            probs_ = []
+            seen_small = seen_large = False
+            for c_ in cases_:
+                small = large = False
+                for x in c_["facts"]:
+                    if x[0] in ("<", "<=") and x[1][0] == "call" and x[1][1] in ("abs", "std::abs") and x[1][2] == zp and x[2][0] == "lit" and 0 < float(x[2][1]) <= 1e-10:
+                        small = True
+                    if x[0] in ("<", "<=") and x[2][0] == "call" and x[2][1] in ("abs", "std::abs") and x[2][2] == zp and x[1][0] == "lit" and 0 < float(x[1][1]) <= 1e-10:
+                        large = True
+                try:
+                    got_ = F.conv(c_["key"])
+                except AnalysisBroken:
+                    raise
+                if small:
+                    seen_small = True
+                    if not F.equal(got_, T + Zw * beta):
+                        probs_.append("at vanishing frequency the value is %s, expected Terms(z) + ZeroPoleWeight*beta" % F.show(got_))
+                elif large:
+                    seen_large = True
+                    if not F.equal(got_, T):
+                        probs_.append("away from zero frequency the value is %s, expected Terms(z)" % F.show(got_))
+                else:
+                    if F.equal(got_, T + Zw * beta):
+                        probs_.append("the static contribution ZeroPoleWeight*beta is added at every frequency")
+                    elif F.equal(got_, T):
+                        probs_.append("the static contribution ZeroPoleWeight*beta is never added")
                     else:
-                        why = "static-limit contribution is (%s ? %s : %s), expected (|z| < eps ? ZeroPoleWeight*beta : 0)" % (g.s(g.nodes[rets[0]]["sub"])[:60], F.conv(c[2]), F.conv(c[3]))
-            if ok_:
+                        raise AnalysisBroken("%s: a returning path does not decide |z| < eps and its value is not recognised" % site)
+            if probs_:
+                r1.bad(site, g.loc(), "value is not Terms(z) + [|z|<eps] * ZeroPoleWeight * beta: " + "; ".join(sorted(set(probs_))), cfgname)
+            elif seen_small and seen_large:
                 r1.ok(site, g.loc(), "Terms(z) + [|z|<eps]*ZeroPoleWeight*beta", cfgname)
-            elif key_contains(rk, lambda y: y[0] == "var"):
-                raise AnalysisBroken("%s: the returned value depends on a local that is assigned in a form that is not analysed" % site)
             else:
-                r1.bad(site, g.loc(), why, cfgname)
+                raise AnalysisBroken("%s: the frequency test |z| < eps was not found" % site)
         else:
             T = F.name_atom(("op", "()", terms, ("param", g.params[0]["d"], g.params[0]["n"]), fld("Pomerol::Thermal::beta")), "Terms_tau")
             got = F.conv(rk)
